@@ -17,9 +17,21 @@ func (s *Service) blockPeer(peer core.PeerID, dur time.Duration, reason string) 
 	s.blockMu.Lock()
 	defer s.blockMu.Unlock()
 
+	now := time.Now()
+	if info, ok := s.blockMap[peer]; ok {
+		// never weaken an existing block: a permanent block stays permanent and
+		// a timed block is not replaced by one that expires earlier.
+		if info.duration == 0 {
+			return
+		}
+		if dur != 0 && info.start.Add(info.duration).After(now.Add(dur)) {
+			return
+		}
+	}
+
 	s.blockMap[peer] = blockInfo{
 		reason:   reason,
-		start:    time.Now(),
+		start:    now,
 		duration: dur,
 	}
 }
